@@ -74,6 +74,11 @@ def faults(g):
     add("def-default", '<%%def name="d9(a=%s)">x</%%def>' % BAD)
     add("block-args", '<%%block name="bb9" args="a=%s">x</%%block>' % BAD)
     add("page-args", '<%%page args="a=%s"/>' % BAD)
+    # signatures written over several lines, the attribute value starting with line breaks
+    add("page-args-leading-newline", '<%page args="\n' + "\n" * k + '    a b,\n    c=1"/>', dline=1 + k)
+    add("block-args-leading-newline", '<%block name="bb8" args="\n' + "\n" * k + '    c=1,\n    a b">x</%block>', dline=2 + k)
+    add("call-args-leading-newline", '<%call expr="f()" args="\r\n' + "\n" * k + '  a b">x</%call>', dline=1 + k)
+    add("nsdef-args-leading-newline", '<%self:f args="\n' + "\n" * k + '  a b,\n  d">x</%self:f>', dline=1 + k)
     add("filter-list", "${x | h, %s}" % "a b")
     add("filter-list-after-newline", "${x |\n" + "\n" * k + " h, a b}", dline=1 + k)
     add("filter-list-multiline-expr", "${[x,\n y][0]\n" + "\n" * k + " | a b}", dline=2 + k)
